@@ -62,6 +62,9 @@ def run(chk):
         docs += [("mut-value", gen.mutate_value(rng, base)[1]) for _ in range(3)]
         docs += [("mut-struct", gen.mutate_structure(rng, base)[1]) for _ in range(2)]
         docs += [("mut-target", m) for _, m in gen.mutate_targeted(rng, base)[:8]]
+        if not getattr(chk, "_families_done", False):
+            chk._families_done = True
+            docs += [("family", m) for _, m in gen.boundary_families(rng)]
         g0 = None
         for kind, d in docs:
             g = attempt("fromdict:" + kind, lambda: demes.Graph.fromdict(copy.deepcopy(d)), d)
